@@ -31,8 +31,9 @@ def sys_campaign(ck, prop, n, families=None, gated_p=0.6, fail_p=0.25, workers=6
     def one(job):
         i, fam, T, roots, fail, gated, r = job
         pre = ('--clean',) if r.random() < clean_p else ()
+        # one run in five: builds without declared inputs (never skipped: every pass over a target runs its script)
         obs, V = sysrun.oneshot(r, T, roots, fail=fail, gated=gated, tag='%s_%d_%d' % (prop, seed_base, i), hang_s=hang_s,
-                                pre_args=pre)
+                                pre_args=pre, with_inputs=r.random() < 0.8)
         return job, obs, V
     with concurrent.futures.ThreadPoolExecutor(max_workers=workers) as ex:
         for job, obs, V in ex.map(one, jobs):
@@ -59,7 +60,8 @@ def report_sys(ck, prop, found, limit=3):
         ck.violation({'kind': 'watch-scenario' if obs.get('outcome') == 'watch' else 'system-run', 'plan': obs.get('plan'),
                       'when': obs.get('when'), 'signal': obs.get('signal'), 'watch': obs.get('watch'),
                       'what': texts, 'targets': obs['targets'], 'roots': obs['roots'],
-                      'failing_scripts': obs['fail'], 'gated': obs['gated'], 'observed_trace': obs['trace'],
+                      'failing_scripts': obs['fail'], 'gated': obs['gated'], 'builds_declare_inputs': obs.get('with_inputs', True),
+                      'observed_trace': obs['trace'],
                       'dependencies_declared_through_X.output': obs.get('dependencies_declared_through_X.output'),
                       'second_run': obs.get('second_run'),
                       'outcome': obs['outcome'], 'exit_code': obs['exit_code'], 'stderr_tail': obs['stderr_tail'],
@@ -182,6 +184,7 @@ def replay(ck, prop, path, run):
         for i in range(attempts):
             obs, V = sysrun.oneshot(r, T, rep['roots'], fail=fail, gated=bool(rep.get('gated', True)), tag='%s_rp%d' % (prop, i),
                                     pre_args=tuple(rep.get('arguments_before_targets') or ()),
+                                    with_inputs=bool(rep.get('builds_declare_inputs', True)),
                                     implied_edges=rep.get('dependencies_declared_through_X.output') or [],
                                     prefer=prefer if i < 3 else None, hold_s=0.0 if i % 2 == 0 else 0.3)
             ck.count(('replay', i), sample={'attempt': i, 'trace': obs['trace'][:12], 'verdicts': V})
